@@ -34,6 +34,17 @@ Sibling hierarchies (siblings()): for the first run of super-linked classes, eve
 be put over the run's non-root classes (<= 2 bases, decided by Python's MRO computation) and in whose method
 resolution order some shared class is followed by a different class than in the run's own order.
 
+Round 4 axes:
+* own may carry the prefixes "*" (the level's signature is (*args, <own parameters, keyword-only>, **kwargs) and the
+  forwarding call passes *args on: callee(*args, **kwargs) - the documented pass-through) and "/" / "//" (the level's
+  signature starts with one / two positional-only parameters p, q with defaults: what *args can reach).
+* "use_in": "base" | "mixin" - the method / property that unpacks the saved attribute of a deferred-use link
+  (self._kw = kwargs ... fN(**self._kw)) is defined on a base class / a leading mixin of the class whose __init__
+  saved it, not on that class itself.
+* "entry": "heir" | "heir_file" - the program is entered through a subclass of the root's class that defines nothing
+  itself (it inherits __init__ / meth / make); "heir_file": that subclass lives in a second source file which imports
+  nothing but its base class (render_heir_module()).
+
 Nothing here imports jsonargparse.
 """
 from __future__ import annotations
@@ -42,6 +53,21 @@ import itertools
 
 NAMES = ["a", "b"]
 FOREIGN = "zz"
+POSONLY = ["p", "q"]  # names of the positional-only parameters a level may own (prefix "/" or "//" of `own`)
+
+
+def own_star(own):
+    """The level takes *args and passes them on at its forwarding call."""
+    return "*" in own
+
+
+def own_posonly(own):
+    """Number of positional-only parameters (p, q) at the start of the level's signature."""
+    return own.count("/")
+
+
+def own_names(own):
+    return own.replace("*", "").replace("/", "")
 
 # link -> kind of the next level
 TARGET = {
@@ -296,10 +322,20 @@ def behaviours(size):
         out += [("", "R:a"), ("", "U:a")]
     elif size == "small":
         out = [("", ""), ("a", ""), ("A", ""), ("", "P:a"), ("", "G:a"), ("", "H:a")]
+    elif size == "small-get":
+        # "small" without kwargs.get (round 4 trim of the quick depth-3 family: a kwargs.get level is the open known
+        # finding F1 in most programs; it stays at depth 1-2, in the hierarchies and in the thorough depth 3)
+        out = [("", ""), ("a", ""), ("A", ""), ("", "P:a"), ("", "H:a")]
     elif size == "tiny4":
         out = [("", ""), ("a", ""), ("", "P:a"), ("", "H:a")]
     elif size == "tiny":
         out = [("", ""), ("a", ""), ("", "P:a")]
+    elif size == "args":
+        # *args pass-through levels (own parameters are then keyword-only) and levels with positional-only parameters
+        out = [("*", ""), ("*a", ""), ("*A", ""), ("*ab", ""), ("*", "P:a"), ("*a", "H:a"), ("*", "Hp")]
+        out += [("", ""), ("a", ""), ("/", ""), ("/a", ""), ("//", ""), ("//a", "")]
+    elif size == "args3":
+        out = [("*", ""), ("*a", ""), ("*", "Hp"), ("", ""), ("/a", ""), ("//", "")]
     else:
         raise ValueError(size)
     return out
@@ -319,6 +355,8 @@ def level_choices(link, size):
             continue  # the forwarding call of a deferred use is in another scope: no `kwargs` / local variable there
         if op[:1] == "h" and link == "dict_update":
             continue  # dict(k=v) + update(**kwargs): there is no position after the unpacking
+        if own_star(own) and (link in TERMINALS or link in DEFERRED):
+            continue  # *args are passed on at the forwarding call: needs one, in the level's own scope
         out.append((own, op))
     return out
 
@@ -336,10 +374,11 @@ def needs_same_scheme(levels):
     return any(sites[n] > 1 for n in popget)
 
 
-def programs(depths, sizes, rich_layouts=False, roots=ROOTS, link_filter=None, same_scheme_depths=(1, 2, 3, 4, 5), aux_layouts=True, blank=False):
+def programs(depths, sizes, rich_layouts=False, roots=ROOTS, link_filter=None, same_scheme_depths=(1, 2, 3, 4, 5), aux_layouts=True, blank=False, level_filter=None, variants=None):
     """Enumerate program specs, simplest first: by depth, then skeleton, then behaviours.
 
-    depths: iterable of depths; sizes: {depth: alphabet size name}."""
+    depths: iterable of depths; sizes: {depth: alphabet size name}; level_filter: predicate on the levels;
+    variants: list of dicts of further spec keys ("use_in", "entry"), every one combined with every program."""
     for depth in depths:
         size = sizes[depth]
         for root in roots:
@@ -350,11 +389,14 @@ def programs(depths, sizes, rich_layouts=False, roots=ROOTS, link_filter=None, s
                 lays = layouts_for(root, links, rich_layouts, aux_layouts, blank)
                 for combo in itertools.product(*per_level):
                     levels = [[links[i], combo[i][0], combo[i][1]] for i in range(depth)]
+                    if level_filter and not level_filter(levels):
+                        continue
                     same = depth in same_scheme_depths and needs_same_scheme(levels)
                     for lay in lays:
-                        yield {"root": root, "levels": levels, "layout": lay, "scheme": "diff"}
-                        if same and lay == "lin":
-                            yield {"root": root, "levels": levels, "layout": lay, "scheme": "same"}
+                        for extra in variants or [{}]:
+                            yield {"root": root, "levels": levels, "layout": lay, "scheme": "diff", **extra}
+                            if same and lay == "lin":
+                                yield {"root": root, "levels": levels, "layout": lay, "scheme": "same", **extra}
 
 
 # ---------------------------------------------------------------------------------------------------
@@ -370,6 +412,10 @@ def pdefault(i, name, scheme):
     return 1 + idx if scheme == "same" else 10 * (i + 1) + idx + 1
 
 
+def posonly_default(i, k, scheme):
+    return 5 + k if scheme == "same" else 10 * (i + 1) + 5 + k
+
+
 def hard_value(i, name):
     return 900 + 10 * i + NAMES.index(name)
 
@@ -378,9 +424,14 @@ def sentinel(name):
     return 5000 + (NAMES + [FOREIGN]).index(name)
 
 
+def positional_sentinel(k):
+    """Value of the k-th positional argument the interpreter runs pass to the root."""
+    return 5009 + k
+
+
 def own_params(own):
     """[(name, required)] with required parameters first (Python's rule)."""
-    ps = [(c.lower(), c.isupper()) for c in own]
+    ps = [(c.lower(), c.isupper()) for c in own_names(own)]
     return [p for p in ps if p[1]] + [p for p in ps if not p[1]]
 
 
@@ -445,7 +496,7 @@ def sibling_bases(bases, max_bases=2):
 def siblings(spec):
     """[(class name, [base class names])] of the sibling hierarchies of a program (empty without a run of >= 3)."""
     rc = run_classes(spec)
-    if rc is None or len(rc[0]) < 3:
+    if rc is None or len(rc[0]) < 3 or spec.get("entry"):
         return []
     names, bases = rc
     return [(f"Sib{n}", [names[j] for j in combo]) for n, combo in enumerate(sibling_bases(bases))]
@@ -534,6 +585,14 @@ def render(spec, with_siblings=False):
         terminal = link in TERMINALS
         params = own_params(own)
         sig = []
+        posonly = POSONLY[: own_posonly(own)]
+        for k, name in enumerate(posonly):
+            sig.append(f"{name}: {ptype(i, scheme)} = {posonly_default(i, k, scheme)}")
+        if posonly:
+            sig.append("/")
+        star = "*args, " if own_star(own) else ""
+        if star:
+            sig.append("*args")  # the own parameters that follow are keyword-only
         for name, req in params:
             sig.append(f"{name}: {ptype(i, scheme)}" + ("" if req else f" = {pdefault(i, name, scheme)}"))
         if link != "T0":
@@ -541,7 +600,7 @@ def render(spec, with_siblings=False):
         first = {"C": "self", "M": "self", "K": "cls", "F": None}[kind]
         sig_txt = ", ".join(([first] if first else []) + sig)
         body = []
-        logged = [f"{name}={name}" for name, _ in params]
+        logged = [f"{name}={name}" for name in posonly] + [f"{name}={name}" for name, _ in params]
         pg = op_popget(op)
         inline_expr = None
         if pg and not pg[2]:
@@ -574,6 +633,12 @@ def render(spec, with_siblings=False):
                 hk = f"{hard}={val}, "
         elif op_hard_positional(op):
             hk = (inline_expr or str(hard_value(i, "a"))) + ", "
+        if star:
+            # callee(<positional given>, *args, <keywords given>, **kwargs)
+            if op_hard_positional(op):
+                hk = hk + star
+            else:
+                hk = star + hk
         extra_members = []
         if not terminal:
             nxt = i + 1
@@ -650,7 +715,14 @@ def render(spec, with_siblings=False):
             deco = "    @classmethod\n" if kind == "K" else ""
             c = cls(owner[i])
             c.members.append(f"{deco}    def {mname}({sig_txt}):\n{body_txt}")
-            c.members.extend(extra_members)
+            use_in = spec.get("use_in", "own")
+            if extra_members and use_in != "own":
+                # the member that unpacks the saved attribute lives on another class of the method resolution order
+                u = cls(f"Use{i}")
+                u.members.extend(extra_members)
+                c.bases = c.bases + [u.name] if use_in == "base" else [u.name] + c.bases
+            else:
+                c.members.extend(extra_members)
 
     # ---- emit
     out = [
@@ -677,14 +749,21 @@ def render(spec, with_siblings=False):
 
     for name in list(classes):
         emit(name)
-    if root == "C":
-        out.append(f"def _invoke(**kw):\n    return {root_class}(**kw)\n\n\nROOT = ({root_class}, None)\n")
-    elif root == "F":
-        out.append("def _invoke(**kw):\n    return f0(**kw)\n\n\nROOT = (f0, None)\n")
-    elif root == "K":
-        out.append("def _invoke(**kw):\n    return C0.make(**kw)\n\n\nROOT = (C0, 'make')\n")
+    if root == "F":
+        out.append("def _invoke(*pos, **kw):\n    return f0(*pos, **kw)\n\n\nROOT = (f0, None)\n")
     else:
-        out.append("def _invoke(**kw):\n    return C0().meth(**kw)\n\n\nROOT = (C0, 'meth')\n")
+        ename = entry_class(spec, root_class)
+        if spec.get("entry") == "heir":
+            out.append(f"class Heir({ename}):\n    heir_marker = 1\n\n\n")
+            ename = "Heir"
+        # entry "heir_file": ENTRY and ROOT are rebound by the loader to the subclass defined in the second file
+        out.append(f"ENTRY = {ename}\n\n\n")
+        if root == "C":
+            out.append("def _invoke(*pos, **kw):\n    return ENTRY(*pos, **kw)\n\n\nROOT = (ENTRY, None)\n")
+        elif root == "K":
+            out.append("def _invoke(*pos, **kw):\n    return ENTRY.make(*pos, **kw)\n\n\nROOT = (ENTRY, 'make')\n")
+        else:
+            out.append("def _invoke(*pos, **kw):\n    return ENTRY().meth(*pos, **kw)\n\n\nROOT = (ENTRY, 'meth')\n")
     lv = []
     for i in range(n):
         kind = kinds[i]
@@ -708,6 +787,18 @@ def render(spec, with_siblings=False):
     return "".join(out)
 
 
+def entry_class(spec, root_class="C0"):
+    """Name of the class that owns the root level (the base of the inheriting entry class)."""
+    return root_class if spec["root"] == "C" else "C0"
+
+
+def render_heir_module(spec, main_module):
+    """Source of the second file of an entry "heir_file" program: a subclass of the root's class that defines nothing
+    itself and imports nothing else from the program's module (none of the callees are globals here)."""
+    base = entry_class(spec)
+    return f"# generated by mc/checks/c13_gen.py\nfrom {main_module} import {base}\n\n\nclass Heir({base}):\n    heir_marker = 1\n"
+
+
 def selector_levels(spec):
     """Indexes of the levels whose link is a non-constant conditional (two runtime branches)."""
     return [i for i, l in enumerate(spec["levels"]) if l[0] == "ncc"]
@@ -715,4 +806,4 @@ def selector_levels(spec):
 
 def describe(spec):
     """Short shape of a program for signatures/samples: root kind and the link pattern sequence."""
-    return spec["root"] + ":" + ">".join(l[0] for l in spec["levels"])
+    return spec["root"] + ":" + ">".join(l[0] for l in spec["levels"]) + "".join(f"|{k}={spec[k]}" for k in ("use_in", "entry") if spec.get(k))
